@@ -2,6 +2,7 @@
 
 pub mod common;
 pub mod endpoint;
+pub mod enumer;
 
 pub mod c01;
 pub mod c02;
